@@ -213,6 +213,14 @@ func init() {
 		e.c16StmtList(s, ca, "keyLru.remove", "lruRemoveStmts")
 		e.c16StmtList(s, ca, "keyLru.removeOldest", "lruRemoveOldestStmts")
 		e.c16StmtList(s, ca, "keyLru.removeElement", "lruRemoveElementStmts")
+		// statistics: Get / Take with their stats calls kept (hit / miss accounting of the driver's monitor)
+		c16DropSaved := c16Drop
+		c16Drop = regexp.MustCompile(`^(defer )?\w+(\.\w+)*\.(Lock|Unlock|RLock|RUnlock)\(\)$|^logx\.`)
+		e.c16StmtList(s, ca, "Cache.Get", "cacheGetStatStmts")
+		e.c16StmtList(s, ca, "Cache.Take", "cacheTakeStatStmts")
+		c16Drop = c16DropSaved
+		// SetTimer rejects a non-positive delay (CacheG.setNoTimer)
+		e.c16StmtList(s, "core/collection/timingwheel.go", "TimingWheel.SetTimer", "wheelSetTimerStmts")
 		// lock frames (the interleaving models Conc.lean / ConcTake.lean: which lock, held over which statements)
 		e.c16LockFrame(s, ff, "Queue.Put", "queuePutLocks")
 		e.c16LockFrame(s, ff, "Queue.Take", "queueTakeLocks")
